@@ -58,6 +58,19 @@ def applyEditor (a : Agg) (ed : String) (x : Bytes) (flags : Option (Bool × Boo
   | "add_authority_slashes_if_needed" => some (addAuthoritySlashes a)
   | "set_username" => some (setUsernameM 4000000000 isFile a x).1
   | "set_password" => some (setPasswordM 4000000000 isFile a x).1
+  | "set_protocol" =>
+    let t := Spec.stripTN (x ++ [0x3A])
+    match t with
+    | [] => some a
+    | c :: _ =>
+      if !isAsciiAlpha c then some a else
+      let name := t.takeWhile Spec.isSchemeChar
+      match t.drop name.length with
+      | 0x3A :: _ => some (setProtocolCoreM 4000000000 special isFile a (name.map toLowerByte)).1
+      | _ => some a
+  | "set_port" =>
+    let dflt := if special then Spec.defaultPort (getProtocol a).dropLast else none
+    some (setPortM 4000000000 isFile dflt a x).1
   | "set_search" => if x.isEmpty then none else some (setSearchM 4000000000 special a x)
   | "set_hash" => if x.isEmpty then none else some (setHashM 4000000000 a x)
   | "set_scheme" => some (setScheme a x)
